@@ -21,7 +21,7 @@ func init() {
 	register(&Rule{ID: "P-ERRFLOW", Props: []string{"C04", "C08", "C16", "C03"}, Floor: 113,
 		Doc: "in every API-reachable function that returns an error, the block of each `if err != nil` ends by returning a non-nil error (or panicking) and contains no success return",
 		Run: rulePErrFlow})
-	register(&Rule{ID: "P-CHARCLASS", Props: []string{"C04", "C16", "C19"}, Floor: 4,
+	register(&Rule{ID: "P-CHARCLASS", Props: []string{"C04", "C16", "C19", "C08"}, Floor: 4,
 		Doc: "every predicate over a rune/byte built from >= 2 comparisons with constants (lexer, parser) accepts exactly one of the grammar's character classes (digit, letter/underscore, letter/digit/underscore, hex a-f, hex A-F, whitespace or its complement), and each scanner uses only the classes the grammar gives it",
 		Run: rulePCharClass})
 	register(&Rule{ID: "P-REJECT-CONJ", Props: []string{"C04", "C16"}, Floor: 1,
